@@ -83,10 +83,17 @@ def build(rng, geom, dtype):
     elif geom == "hyperout":
         # an *output* label that also joins two tensors (a hyper network in quimb's sense: output_inds must be given)
         hyper = True
-        if rng.random() < 0.5:
+        v_ = rng.random()
+        if v_ < 0.33:
             ts.append(T_(["o", "x0", "p0"], [2, 2, 2], "T0"))
             ts.append(T_(["o", "x1"], [2, 2], "T1"))
             ts.append(T_(["x0", "x1", "p1"], [2, 2, 2], "T2"))
+        elif v_ < 0.66:
+            # a ring whose fat bonds make the loop worth re-factorising, with the output label on two of its tensors
+            b = rng.choice([4, 5, 6])
+            ts.append(T_(["p0", "o", "x0"], [2, 2, b], "T0"))
+            ts.append(T_(["p1", "o", "x1"], [2, 2, b], "T1"))
+            ts.append(T_(["x1", "x0"], [b, b], "T2"))
         else:
             # two tensors that share the output label and a fat bond: the pair is worth re-factorising
             b = rng.choice([4, 5, 6])
@@ -106,6 +113,21 @@ def build(rng, geom, dtype):
         ts.append(T_(["x3", "p2"], [2, 2], "T4"))
         if rng.random() < 0.5:
             ts.append(T_([], [], "T5", data=np.array(2.0)))
+    elif geom == "repeated":
+        # a tensor that carries the same label twice (a 'diagonal' use of the label), joined to neighbours through it;
+        # or the situation diagonal_reduce produces itself: a neighbour joined to a diagonal tensor by both its labels
+        if rng.random() < 0.5:
+            b = rng.choice([2, 3])
+            ts.append(T_(["p0", "x0", "x0"], [2, b, b], "T0"))
+            ts.append(T_(["x0", "p1"], [b, 2], "T1"))
+            if rng.random() < 0.5:
+                ts.append(T_(["p1", "p2"], [2, 2], "T2"))
+        else:
+            dg = np.diag([1.0, 2.0]) if rng.random() < 0.5 else np.diag([2.0, -1.0])
+            ts.append(T_(["p0", "x0", "x1"], [2, 2, 2], "T0"))
+            ts.append(T_(["x0", "x1"], [2, 2], "T1", data=dg))
+            if rng.random() < 0.5:
+                ts.append(T_(["p0", "p1"], [2, 2], "T2"))
     tn = qtn.TensorNetwork(ts)
     labels = sorted(tn.ind_map)
     out = [x for x in labels if sum(t.inds.count(x) for t in ts) == 1]
@@ -144,7 +166,10 @@ class Case:
         self.gauges = None
         if geom in ("chain", "multibond", "ones", "star") and rng.random() < 0.4:
             self.gauges = {}
-            for ix in self.tn.inner_inds():
+            inner = list(self.tn.inner_inds())
+            partial = rng.random() < 0.5     # a bond without an entry carries the identity gauge
+            keep = [ix for ix in inner if not partial or rng.random() < 0.5] or [rng.choice(inner)]
+            for ix in keep:
                 d = self.tn.ind_size(ix)
                 self.gauges[ix] = np.asarray([float(rng.choice([1, 2, 3])) for _ in range(d)]).astype("float64")
             # the trace's reference network includes the gauges as one-label tensors on their bonds
@@ -257,7 +282,12 @@ class Case:
         elif not hyper_now and r.random() < 0.06:
             menu = ["g_all_simple"]
         if self.geom == "hyperout" and len(self.recs) == 1:
-            menu = ["pair_simplify", "full_simplify_P", "full_simplify_P"]
+            menu = ["pair_simplify", "full_simplify_P", "full_simplify_P", "loop_simplify", "full_simplify_L"]
+        if any(len(set(t.inds)) != t.ndim for t in tn.tensors):
+            # a label repeated on one tensor: the simplification passes (which collapse it) are the documented consumers
+            menu = ["rank_simplify", "rank_simplify", "full_simplify_R", "diagonal_reduce", "column_reduce", "antidiag_gauge", "equalize_norms"]
+        elif self.geom == "repeated" and len(self.recs) == 1:
+            menu = ["diagonal_reduce", "diagonal_reduce", "full_simplify_R", "rank_simplify"]
         op = r.choice(menu)
         if (tn.num_tensors < 2 or not any(len(tids) == 2 for tids in tn.ind_map.values())) and \
                 op.startswith(("gauge", "canonize", "balance", "compress", "g_")):
@@ -402,6 +432,13 @@ class Case:
                 self.observe("pair_simplify", {}, lambda t: t.pair_simplify(output_inds=out))
         elif op == "loop_simplify":
             self.observe("loop_simplify", {}, lambda t: t.loop_simplify(output_inds=out))
+        elif op == "full_simplify_L":
+            seq = r.choice(["L", "L", "RL", "ADCRSL"])
+            eq = r.choice([False, False, 1.0])
+            self.observe("full_simplify", {"seq": seq, "equalize_norms": str(eq)}, lambda t: t.full_simplify(seq, output_inds=out, equalize_norms=eq))
+        elif op == "full_simplify_R":
+            seq = r.choice(["R", "DR", "ADCR", "RD"])
+            self.observe("full_simplify", {"seq": seq, "equalize_norms": False}, lambda t: t.full_simplify(seq, output_inds=out))
         elif op == "full_simplify_P":
             seq = r.choice(["ADCRP", "RPL", "P", "ADCRSP"])
             self.observe("full_simplify", {"seq": seq, "equalize_norms": False}, lambda t: t.full_simplify(seq, output_inds=out))
@@ -469,6 +506,11 @@ class Case:
                 return
             a, b, ix = r.choice(nb)
             g = self.gauges
+            sh_ = [i for i in tn[a].inds if i in tn[b].inds]
+            if op == "g_fuse_squeeze" and all(tn.ind_size(i) == 1 for i in sh_) and not all(i in g for i in sh_):
+                # squeezing a size-one bond pops its gauge: only tensor_multifuse documents "absent = identity gauge",
+                # so an unlisted size-one bond is outside what tensor_fuse_squeeze accepts (KeyError, loud)
+                return
             def f(t):
                 t = t.copy()
                 if op == "g_fuse_squeeze":
@@ -515,7 +557,7 @@ class Case:
             self.observe("flip(bond)", {"ix": ix}, lambda t: t.flip([ix]))
 
 
-GEOMS = ["chain", "star", "triangle", "square", "multibond", "ones", "hyper", "structured", "hyperout"]
+GEOMS = ["chain", "star", "triangle", "square", "multibond", "ones", "hyper", "structured", "hyperout", "repeated"]
 
 
 def run(ctx):
@@ -533,7 +575,9 @@ def run(ctx):
     dtypes = ["float64", "complex128", "float32", "complex64"]
     recs, names, imprecise, cases = [], {}, 0, []
     for k in range(ncases):
-        c = Case(rng, k, dtypes[k % 4] if k % 5 else "float64", GEOMS[k % len(GEOMS)])
+        # (k // len(GEOMS)) walks the dtypes independently of the geometry class
+        kd = k // len(GEOMS) + k
+        c = Case(rng, k, dtypes[kd % 4] if kd % 5 else "float64", GEOMS[k % len(GEOMS)])
         for _ in range(nsteps):
             c.step()
         recs += c.recs
